@@ -41,7 +41,7 @@ theorem nextRawFuel_pos (r : Rd) : ∃ n, nextRawFuel r = n + 1 := ⟨_, rfl⟩
 theorem splitSemicolon_stable (x : Item) (r : Rd)
     (h : ∀ text l n s e, x.lineView = some (text, l, n, s, e) →
       (stringReplaceMap text true).1.contains ';' = false) :
-    splitSemicolon x r = (.ok x, r) := by
+    splitSemicolon x r = some (.ok x, r) := by
   unfold splitSemicolon
   cases hv : x.lineView with
   | none => rfl
@@ -51,15 +51,50 @@ theorem splitSemicolon_stable (x : Item) (r : Rd)
     have hm : ¬ (';' ∈ (stringReplaceMap text true).1) := by simpa using this
     simp [hm]
 
+/-- `_next` = one round of the comment-skipping loop plus the `;` resolution, when the latter
+    produces something -/
+theorem next1_of_nextRaw (r r' : Rd) (it : Item) (q : Res Item × Rd)
+    (h : nextRaw (nextRawFuel r) r = (.ok it, r')) (hs : splitSemicolon it r' = some q) :
+    next1 r = q := by
+  obtain ⟨n, hn⟩ := nextRawFuel_pos r
+  unfold next1
+  rw [show next1Loop (nextRawFuel r) r = next1Loop (n + 1) r from by rw [hn]]
+  unfold next1Loop
+  simp only [h, hs]
+
+theorem next1_of_nextRaw_other (r : Rd) (h : ∀ it, (nextRaw (nextRawFuel r) r).1 ≠ .ok it) :
+    next1 r = nextRaw (nextRawFuel r) r := by
+  obtain ⟨n, hn⟩ := nextRawFuel_pos r
+  unfold next1
+  rw [show next1Loop (nextRawFuel r) r = next1Loop (n + 1) r from by rw [hn]]
+  unfold next1Loop
+  simp only []
+
+/-- no `;` in the tokenised text of the `Line` view of an item -/
+def NoSemi (it : Item) : Prop :=
+  ∀ text l n s e, it.lineView = some (text, l, n, s, e) →
+    (stringReplaceMap text true).1.contains ';' = false
+
+/-- an item produced by `get_source_item` (FIFO empty) that is not an ignored comment and has no
+    `;` is what `_next` returns -/
+theorem next1_of_getSourceItem (r r' : Rd) (it : Item) (hfifo : r.fifo = [])
+    (hg : getSourceItem r = (.ok it, r'))
+    (hc : (it.isComment && r'.ignoreComments) = false) (hsemi : NoSemi it) :
+    next1 r = (.ok it, r') := by
+  obtain ⟨n, hn⟩ := nextRawFuel_pos r
+  have hraw : nextRaw (nextRawFuel r) r = (.ok it, r') := by
+    rw [hn]
+    unfold nextRaw popOrRead
+    simp only [hfifo, hg, hc, Bool.false_eq_true, if_false]
+  exact next1_of_nextRaw r r' it _ hraw (splitSemicolon_stable it r' hsemi)
+
 theorem next1_push (fs : Fs) (r : Rd) (x : Item) (h : returnable fs r x = true) :
     next1 (r.push x) = (.ok x, r) := by
   unfold returnable at h
   simp only [Bool.and_eq_true, Bool.not_eq_true'] at h
   obtain ⟨hc, hl⟩ := h
   obtain ⟨n, hn⟩ := nextRawFuel_pos (r.push x)
-  unfold next1
-  rw [hn, nextRaw_push r x n hc]
-  simp only []
+  refine next1_of_nextRaw (r.push x) r x _ (by rw [hn]; exact nextRaw_push r x n hc) ?_
   apply splitSemicolon_stable
   intro text l nm s e hv
   rw [hv] at hl
